@@ -31,7 +31,10 @@ func (a *SparseInt16Matrix) Equals(b ConstMatrix, epsilon float64) bool {
   for it := a.JOINT_ITERATOR(b); it.Ok(); it.Next() {
     s1, s2 := it.GET()
     if s1.ptr == nil {
-      return false
+      if !ConstInt16(0.0).Equals(s2, epsilon) {
+        return false
+      }
+      continue
     }
     if !s1.Equals(s2, epsilon) {
       return false
